@@ -1,4 +1,5 @@
 import Evl.Lemmas.Gated
+import Evl.Generated.LockSites
 import Evl.Lemmas.GatedSpec
 /-!
 # C11 — gated.Filter neither loses, duplicates nor reorders gated events
@@ -333,5 +334,13 @@ example : (runLog ⟨true, 10⟩ [] demoOps).2.2 = [2, 5, 1, 4, 6, 7] := by deci
 example : (runLog ⟨true, 10⟩ [] demoOps).1 = [] := by decide
 
 example : (allActs ⟨true, 10⟩ [] demoOps).length = 10 := by decide
+
+/-- **Each step of the model is one critical section of the code** (regenerated from
+filters/gated/gated.go on every run; the same fact as `C17.sections_on_source`): `Close` and
+`FlushAll` hold `Filter.l` from beginning to end; `Process` is initialisation, the expiry sweep and the
+update of the event's own group, each under one exclusive acquisition.  With concurrent senders the
+history the theorems quantify over is the order of these sections; a sweep that looks for expired groups
+in one section and opens them in another shows here as a fourth acquisition. -/
+theorem sections_on_source : Evl.Generated.gatedSections = [1, 1, 3] := by decide
 
 end Evl.C11
